@@ -28,14 +28,14 @@ def tpl_ids(sizeA, sizeB, named, x1, a1, x2, a2, x3, a3, x4, a4, t, _twin=False)
         A = TaskPool(pool_size=sizeA)
         refB = [None]
         ecb, ccb = w.callbacks(1, refB)
-        B = SimpleTaskPool(w.worker("B"), pool_size=sizeB, name="nm" if named else None, end_callback=ecb, cancel_callback=ccb)
+        B = SimpleTaskPool(w.worker("B"), pool_size=sizeB, name="n%m%%d" if named else None, end_callback=ecb, cancel_callback=ccb)
         refB[0] = B
         C = TaskPool()
         itA, itB = Interp(w, A, cbkind=2), Interp(w, B, cbkind=0)
         names = [str(A), str(B), str(C)]
         if len(set(names)) != 3:
             code = 1106
-        if names[0] != "TaskPool-0" or names[1] != ("SimpleTaskPool-nm" if named else "SimpleTaskPool-1") or names[2] != "TaskPool-2":
+        if names[0] != "TaskPool-0" or names[1] != ("SimpleTaskPool-n%m%%d" if named else "SimpleTaskPool-1") or names[2] != "TaskPool-2":
             code = code or 1107
 
         def check():
